@@ -156,8 +156,16 @@ fn run_plain(job: &Job) -> (i64, String, usize) {
 
 pub fn gen_batch(args: &[String]) -> i32 {
     // child process: run every job of the file, print "id digest len" lines
-    let jobs: Vec<Job> = serde_json::from_str(&std::fs::read_to_string(&args[0]).unwrap()).unwrap();
+    let mut jobs: Vec<Job> = serde_json::from_str(&std::fs::read_to_string(&args[0]).unwrap()).unwrap();
     std::panic::set_hook(Box::new(|_| {}));
+    let order: usize = args.get(1).and_then(|s| s.parse().ok()).unwrap_or(0);
+    if !jobs.is_empty() {
+        let k = (order * 13) % jobs.len();
+        jobs.rotate_left(k);
+        if order % 2 == 1 {
+            jobs.reverse();
+        }
+    }
     for j in &jobs {
         let (res, d, n) = run_plain(j);
         println!("{} {} {} {}", j.id, res, d, n);
@@ -172,7 +180,11 @@ pub fn determinism(args: &[String]) -> i32 {
     let rec = |ctx: String, id: u64, r: (i64, String, usize)| json!({"ctx": ctx, "job": id, "res": r.0, "digest": r.1, "len": r.2});
     // (a) twice in this thread
     for round in 0..2 {
-        for j in &spec.jobs {
+        let mut order: Vec<&Job> = spec.jobs.iter().collect();
+        if round == 1 {
+            order.reverse();
+        }
+        for j in order {
             writeln!(out, "{}", rec(format!("main-{round}"), j.id, run_plain(j))).unwrap();
         }
     }
@@ -202,7 +214,9 @@ pub fn determinism(args: &[String]) -> i32 {
         spec.jobs.iter().map(|j| json!({"id": j.id, "cfg": cfg_json(&j.cfg), "mode": j.mode, "seed": j.seed,
             "bkind": j.bkind, "blen": j.blen, "bytes": j.bytes})).collect::<Vec<_>>()).unwrap()).unwrap()).unwrap();
     for p in 0..spec.procs {
-        let o = std::process::Command::new(&exe).arg("gen-batch").arg(&jf).output().unwrap();
+        // every child walks the grid in a different order (rotation, odd ones reversed), so
+        // anything that depends on what the process generated before shows up as a difference
+        let o = std::process::Command::new(&exe).arg("gen-batch").arg(&jf).arg(p.to_string()).output().unwrap();
         for l in String::from_utf8_lossy(&o.stdout).lines() {
             let f: Vec<&str> = l.split(' ').collect();
             if f.len() == 4 {
